@@ -158,3 +158,14 @@ def dec_fields(v):
         x = -mag if sign.variant == 'Minus' else (0 if sign.variant == 'NoSign' else mag)
         return x, scale
     raise ValueError('not a decimal: %r' % (v,))
+
+
+def config_consts(prog):
+    """build-time constants as they appear in the current dump"""
+    out = {}
+    for k, (ty, v) in prog.consts.items():
+        name = k.split('::')[-1]
+        mo = re.match(r'^const (-?\d+)_', v)
+        if mo and name in ('DEFAULT_PRECISION', 'EXPONENTIAL_FORMAT_LEADING_ZERO_THRESHOLD', 'EXPONENTIAL_FORMAT_TRAILING_ZERO_THRESHOLD', 'FMT_MAX_INTEGER_PADDING'):
+            out[name] = int(mo.group(1))
+    return out
